@@ -350,6 +350,20 @@ def _coverage(repo, rep):
                   "must not share stored modules)",
                   construct="base:class-qualified", where=L.where(d),
                   detail=str(cls_attrs))
+    bodies = [u for u in ups if "body" in src(u)]
+    okb = bool(bodies)
+    for u in bodies:
+        e = L.inline_locals(d.node, u.args[0])
+        # body.encode(...) on the parameter itself: nothing stripped, folded
+        # or cut before hashing
+        if not (isinstance(e, ast.Call) and isinstance(e.func, ast.Attribute)
+                and e.func.attr == "encode" and isinstance(
+                    e.func.value, ast.Name) and e.func.value.id == "body"):
+            okb = False
+    rep.check(okb, "R15.1", d.qualname, "the source is hashed as it is "
+              "(two sources that differ in white space are two sources)",
+              construct="base:body-verbatim", where=L.where(d),
+              detail=str([src(u) for u in bodies]))
     rep.check("filename" in kinds, "R15.1", d.qualname, "the complete file "
               "name (with its extension) is hashed: the module's __filename "
               "is that of the template it is used for",
